@@ -111,10 +111,8 @@ class DepthCase(base.CaseBase):
                 text = pfbase.native_pformat(self.value, w, rw, depth=depth)
                 full = pfbase.native_pformat(self.value, w, rw, depth=None)
             else:
-                text = pfbase.stream_text(pfbase.sdocs(self.value, w, rw, False, depth=depth,
-                                                       traced_printers=True))
-                full = pfbase.stream_text(pfbase.sdocs(self.value, w, rw, False, depth=None,
-                                                       traced_printers=True))
+                text = pfbase.ptext(self.value, w, rw, depth=depth, traced_printers=True)
+                full = pfbase.ptext(self.value, w, rw, depth=None, traced_printers=True)
         except Exception as e:
             exc = type(e).__name__
             return self.fail('C11:pformat-raises-' + exc, lambda: '%s: %s' % (exc, e))
